@@ -335,7 +335,7 @@ func genProgram07(rt *rapid.T, kinds []string) (*c07Program, func() *cs.Crit, in
 		kinds = []string{"insert", "insert", "updatebyid", "update", "updatefunc", "delete", "deletebyid", "createindex", "dropindex", "find", "find", "count", "findbyid", "catalog"}
 	}
 	backend := rapid.SampledFrom(raceBackends).Draw(rt, "backend")
-	if backend == run.BadgerMem && rapid.IntRange(0, 6).Draw(rt, "with-big-batch") == 0 {
+	if backend == run.BadgerMem && rapid.IntRange(0, 2).Draw(rt, "with-big-batch") == 0 {
 		// only where the batch exceeds the transaction budget and must be refused as a whole
 		kinds = append(append([]string{}, kinds...), "biginsert")
 	}
@@ -533,7 +533,7 @@ func concurrentCase(rt *rapid.T, owner string, kinds []string) (*c07History, str
 func TestC07(t *testing.T) {
 	col := collector("C07", ruleC07)
 	race := os.Getenv("VERIF_RACE") != ""
-	n := cases(160, 4000)
+	n := cases(160, 6000)
 	if race {
 		n = ev.Scale(150, 1500)
 	}
